@@ -18,6 +18,7 @@ mod c12;
 mod c05;
 mod c03;
 mod c08;
+mod c11;
 
 use std::path::PathBuf;
 
@@ -84,6 +85,7 @@ fn main() {
         "c05" => c05::run(&args),
         "c03" => c03::run(&args),
         "c08" => c08::run(&args),
+        "c11" => c11::run(&args),
         "c06" => c06::run(&args),
         "c16" => c16::run(&args),
         "c10" => c10::run(&args),
